@@ -69,10 +69,14 @@ theorem inv_step (s : JobList) (op : Op) (h : Inv s) (hpre : opPre s op = true) 
   | insertJob pid st jc name => exact insert_inv s _ h hpre
   | jobs args => exact jobsBuiltin_inv s args h
   | bg m args => exact bgBuiltin_inv s m args h
-  | fg m out args => exact fgBuiltin_inv s m out args h
+  | fg m i out args => exact fgBuiltin_inv s m i out args h
   | wait args => exact waitBuiltin_inv s args h
   | wres arg => exact h
   | amp pid m i name => exact ampersand_inv s pid m i name h hpre
+  | hjs pid r i name => exact handleJobStatus_inv s pid r i name h hpre
+  | jobsClosed args => exact jobsClosed_inv s args h
+  | ampFail => exact h
+  | reportLast => exact reportLast_inv s h
 
 /-- ★ hence it holds after every history — any length, any number of jobs -/
 theorem inv_reachable (ops : List Op) (s : JobList) (h : Inv s) (hp : PathPre s ops) : Inv (run s ops) := by
@@ -251,13 +255,21 @@ theorem index_stable (s : JobList) (op : Op) (h : Inv s) (hpre : opPre s op = tr
   | insertJob pid st jc name => exact insert_stable s _ h
   | jobs args => exact stable_of_sub _ _ h (jobsBuiltin_sub s args)
   | bg m args => exact stable_of_sub _ _ h (bgBuiltin_sub s m args)
-  | fg m out args => exact stable_of_sub _ _ h (fgBuiltin_sub s m out args)
+  | fg m i out args => exact stable_of_sub _ _ h (fgBuiltin_sub s m i out args)
   | wait args => exact stable_of_sub _ _ h (waitBuiltin_sub s args)
   | wres arg => exact stable_of_sub _ _ h (Sub.refl s)
   | amp pid m i name =>
     intro i' j hi
     have := insert_stable s (asyncJob pid m name) h i' j hi
     exact this
+  | hjs pid r i name =>
+    simp only [step, handleJobStatus]
+    split
+    · exact insert_stable s _ h
+    · exact stable_of_sub _ _ h (Sub.refl s)
+  | jobsClosed args => exact stable_of_sub _ _ h (jobsClosed_sub s args)
+  | ampFail => exact stable_of_sub _ _ h (Sub.refl s)
+  | reportLast => exact stable_of_sub _ _ h (reportLast_sub s)
 
 /-- ★ `%%`/`%+` designate the current job, `%-` the previous job, `%n` the job at index `n-1`;
     on a consistent table `%%` succeeds iff the table is non-empty. -/
@@ -308,10 +320,14 @@ theorem last_async (s : JobList) (op : Op) :
     simp only [step, JobList.insert]; cases lookup s.pids pid <;> rfl
   | jobs args => exact jobsBuiltin_lastAsync s args
   | bg m args => rfl
-  | fg m out args => exact fgBuiltin_lastAsync s m out args
+  | fg m i out args => exact fgBuiltin_lastAsync s m i out args
   | wait args => exact waitBuiltin_lastAsync s args
   | wres arg => rfl
   | amp pid m i name => rfl
+  | hjs pid r i name => exact handleJobStatus_lastAsync s pid r i name
+  | jobsClosed args => exact jobsClosed_lastAsync s args
+  | ampFail => rfl
+  | reportLast => exact reportLast_lastAsync s
 
 /-! ### the precondition is needed and satisfiable; hypotheses are met by non-trivial histories -/
 
